@@ -168,12 +168,13 @@ func runC05(r *mc.Run) {
 		dp := c.Choose("root.dps", len(dps))
 		ph := c.Choose("pck.header", 7)
 		opt := c.Choose("options", 3)
+		reason := []int{0, 1, 8, 6, 10}[c.Choose("entry.reason", 5)] // none, keyCompromise, removeFromCRL, certificateHold, aACompromise
 		id := "crl/" + c.ID()
 		if !r.Want(id) {
 			return
 		}
-		pckCrl := world.MakeCRL(world.CRLSpec{Issuer: pckSigners[psg].issuer, Signer: pckSigners[psg].key, Revoked: pckSets[ps].list})
-		rootCrl := world.MakeCRL(world.CRLSpec{Issuer: rootSigners[rsg].issuer, Signer: rootSigners[rsg].key, Revoked: rootSets[rs].list})
+		pckCrl := world.MakeCRL(world.CRLSpec{Issuer: pckSigners[psg].issuer, Signer: pckSigners[psg].key, Revoked: pckSets[ps].list, Reason: reason})
+		rootCrl := world.MakeCRL(world.CRLSpec{Issuer: rootSigners[rsg].issuer, Signer: rootSigners[rsg].key, Revoked: rootSets[rs].list, Reason: reason})
 		fPck := world.MakeCRL(world.CRLSpec{Issuer: F.Inter, Signer: F.InterKey})
 		fRoot := world.MakeCRL(world.CRLSpec{Issuer: F.Root, Signer: F.RootKey})
 		serve := func(kind string, own, other, f []byte, hdr map[string][]string) world.Response {
